@@ -21,10 +21,25 @@ Conventions (in addition to those of `Simaple.Model.Component`)
 namespace Simaple.Comp
 open Simaple.Entity
 
+/-! ### helpers of the group (own namespace: other groups' part files are imported side by side) -/
+namespace Mage
+
 /-- the time carried by an `elapsed` event -/
-def REv.elapsedTime? : REv → Option Int
+def elapsedOf : REv → Option Int
   | .elapsed t => some t
   | _ => none
+
+/-- the times carried by the `elapsed` events of an answer, in order -/
+def elapsedTimes (evs : List REv) : List Int := evs.filterMap elapsedOf
+
+/-- a damage event (`dealt` with or without an explicit modifier): the "ticks" C09 speaks about -/
+def isDamage : REv → Bool
+  | .dealt _ _ => true
+  | .dealtMod _ _ _ => true
+  | _ => false
+
+/-- the damage events of an answer, in order -/
+def damages (evs : List REv) : List REv := evs.filter isDamage
 
 /-- `event_provider.dealt(d, h, modifier = m)` as `complib.enc_revents` reads it: `m` is the canonical text of
     the TOTAL modifier of the event; it is reported only when it differs from the component's default -/
@@ -45,6 +60,9 @@ def consumeMark (m : DivineMark String) : DivineMark String × Option String := 
 def markMod (modNone : String) (modTable : List (String × String)) : Option String → String
   | none => modNone
   | some a => (modTable.lookup a).getD "?"
+
+end Mage
+open Mage
 
 /-! ### FerventDrain (archmagefb.py): no reducers, two constant-shaped views -/
 namespace FerventDrain
@@ -262,17 +280,17 @@ while time_to_resolve > 0:
     previous_count = periodic_state.count
 ```
 returns the periodic, the frost stack and the damage events. -/
-def tickLoop (stop : Int → Bool) (emit : Int → Stack → Stack × REv) :
+def Mage.tickLoop (stop : Int → Bool) (emit : Int → Stack → Stack × REv) :
     Nat → Periodic → Int → Int → Stack → Periodic × Stack × List REv
   | 0, per, _, _, fs => (per, fs, [])
   | n + 1, per, t, prev, fs =>
     if t ≤ 0 then (per, fs, []) else
     let r := per.step t
     if stop r.1.count then (r.1, fs, [])
-    else if r.1.count = prev then tickLoop stop emit n r.1 r.2 prev fs
+    else if r.1.count = prev then Mage.tickLoop stop emit n r.1 r.2 prev fs
     else
       let e := emit r.1.count fs
-      let k := tickLoop stop emit n r.1 r.2 r.1.count e.1
+      let k := Mage.tickLoop stop emit n r.1 r.2 r.1.count e.1
       (k.1, k.2.1, e.2 :: k.2.2)
 
 /-! ### JupyterThunder (archmagetc.py) -/
@@ -436,10 +454,13 @@ structure S where
   cooldown : Cooldown
   periodic : Periodic
 deriving Repr, DecidableEq
+/-- `for _ in range(n): state.divine_mark.mark(self.mark_advantage)` -/
+def markTimes (adv : String) : Nat → DivineMark String → DivineMark String
+  | 0, m => m
+  | n + 1, m => markTimes adv n (m.mark adv)
 def elapse (p : P) (t : Int) (s : S) : S × List REv :=
   let r := s.periodic.elapse' t
-  ({ cooldown := s.cooldown.elapse t, periodic := r.1,
-     divineMark := if 0 < r.2.toNat then s.divineMark.mark p.markAdvantage else s.divineMark },
+  ({ cooldown := s.cooldown.elapse t, periodic := r.1, divineMark := markTimes p.markAdvantage r.2.toNat s.divineMark },
    .elapsed t :: List.replicate r.2.toNat (.dealt p.periodicDamage p.periodicHit))
 def use (p : P) (s : S) : Except String (S × List REv) :=
   if !s.cooldown.available then .ok (s, [.rejected]) else
